@@ -114,8 +114,10 @@ def call_syst(n, w, u0):
     from tempest.tools import systematic_resample
 
     w = _RAW.get(id(w), w)  # execute_nw registers the raw (unnormalised) vector to hand to the routine
+    # one (n, w) pair in three hands the weights in as a plain list (the documented example does), the others as an array
+    arg = w.tolist() if (len(w) + int(n)) % 3 == 0 else w.copy()
     with scripted_uniform(u0) as calls:
-        idx = systematic_resample(n, w.copy())
+        idx = systematic_resample(int(n), arg)
     need_calls(calls, "systematic_resample")
     return np.asarray(idx)
 
